@@ -1312,7 +1312,10 @@ static void CodeALIGN(Word Index) {
                 if (1 == ArgCnt) {
                     DontPrint = !!CodeLen;
                     BookKeeping();
-                } else if (CodeLen > (LongInt)MaxCodeLen) {
+                } else if (SetMaxCodeLen(CodeLen)) {
+                    /* (the buffer grows on demand, as for data statements: whether the
+                       fill fits must not depend on what was assembled before) */
+
                     WrError(ErrNum_CodeOverflow);
                 } else {
                     memset(BAsmCode, AlignFill, CodeLen);
